@@ -94,15 +94,15 @@ type SASLConfig struct {
 }
 
 type scramConv struct {
-	mech        string
-	hg          func() hash.Hash
-	step        int
-	user        string
+	mech            string
+	hg              func() hash.Hash
+	step            int
+	user            string
 	clientFirstBare string
-	serverFirst string
-	nonce       string
-	salt        []byte
-	ok          bool
+	serverFirst     string
+	nonce           string
+	salt            []byte
+	ok              bool
 }
 
 func scramHash(mech string) func() hash.Hash {
